@@ -702,10 +702,15 @@ func init() {
 			return e2sched{E2: e2p{Clients: 2, Type: "counter", Colls: []string{"colA", "colB"}, Prefix: "joined", Tolerant: true}, Conc: conc,
 				AtEnd: []string{"collections"}}
 		}
+		// a push of a client of colA (and what the server starts after answering it) next to the reset of colA
+		pushVsReset := e2sched{E2: e2p{Clients: 2, Type: "counter", Colls: []string{"colA", "colB"}, Prefix: "joined", Tolerant: true},
+			Setup: []pact{{Op: "inc", R: 0, P: 1, T: "k1|"}}, Conc: []pact{{Op: "sync", R: 0}, {Op: "resetcoll", R: 0, T: "colA"}},
+			AtEnd: []string{"reset-empty:colA"}, NoClose: true}
 		p.Assume = append(p.Assume, assumeSched)
 		if tier == "quick" {
 			p.BudgetS = 480
 			p.Runs = []Run{
+				schedRun("race-push-vs-reset-b2", 2, pushVsReset, 0),
 				schedRun("race-create-collection-2-b3", 3, mkrace(2, false), 0),
 				schedRun("race-create-collection-2-reset-b2", 2, mkrace(2, true), 0),
 				{Name: "client-patch-collection-messages", Check: "C16", Kind: "mutadmin", Cases: true, Params: map[string]interface{}{}, Shards: 16},
@@ -717,6 +722,7 @@ func init() {
 			p.BudgetS = 3300
 			p.Runs = []Run{
 				{Name: "client-patch-collection-messages", Check: "C16", Kind: "mutadmin", Cases: true, Params: map[string]interface{}{}, Shards: 16},
+				schedRun("race-push-vs-reset-b3", 3, pushVsReset, 0),
 				schedRun("race-create-collection-2-b4", 4, mkrace(2, false), 0),
 				schedRun("race-create-collection-3-b3", 3, mkrace(3, false), 0),
 				schedRun("race-create-collection-2-reset-b3", 3, mkrace(2, true), 0),
